@@ -164,12 +164,10 @@ def sigpipe_case(args):
     seed, i = args
     rng = random.Random(seed * 86028221 + i)
     sp = t3.Spec(maxtasks=rng.randint(2, 4), bufsize=rng.choice([1, 128]))
-    sp.files["seed.txt"] = "x\n"
-    s = sp.src("src", ["seed.txt"])
     n = rng.choice([200000, 1000000])
     k = rng.randint(1, 5)
-    gen = sp.proc(t3.RawProc("gen", "seq 1 %d | tee {o:copy} > {os:stream}" % n, ins=[("a", [(s, "out")])],
-                             outs=[("copy", "{i:a}.copy"), ("stream", "{i:a}.stream")], stream_outs=["stream"]))
+    gen = sp.proc(t3.RawProc("gen", "seq 1 %d | tee {o:copy} > {os:stream}" % n, ins=[],
+                             outs=[("copy", "seed.txt.copy"), ("stream", "seed.txt.stream")], stream_outs=["stream"]))
     sp.proc(t3.RawProc("first", rng.choice(["head -n %d {i:in} > {o:out}" % k, "grep -m %d . {i:in} > {o:out}" % k]),
                        ins=[("in", [(gen, "stream")])], outs=[("out", "{i:in}.first")]))
     sc = t3.Scratch()
